@@ -66,7 +66,11 @@ func c09Model(ea time.Duration) func(st *engine.Step) {
 				// ... except for logins that do not fire EventAuth (registration, OAuth2): the
 				// library stamps those at the first request through the middleware (DESIGN 7.13)
 				delete(t.Times, c09Last)
-				t.Flags["c09:await-first"] = "1"
+				if u == "" {
+					t.Flags["c09:await-first"] = "1"
+				}
+				// (a registration sent from a session that already had a user inherits whatever stamp that
+				// session carried - one the reference clock does not know here: no assertion until the next login)
 			}
 		}
 		if o.Req.Tag.Kind == "logout" || u2 == "" {
